@@ -86,6 +86,11 @@ structure St where
   col : Nat
   ctx : Nat
   contexts : List Nat
+  /-- `l.bases`: base contexts, parallel to `contexts` -/
+  bases : List Nat
+  /-- `l.base`: context of the text outside tags, script and style (the file's, or the result
+  format's in a macro or using body with an explicit type); `base` above is a byte offset -/
+  lbase : Nat
   tagName : Bytes
   tagAttr : Bytes
   tagIndex : Nat
